@@ -1,8 +1,179 @@
-(** C08: factorisation modulo a prime (first version: executable-model milestone). *)
+(** C08: factorisation modulo a prime.
+
+    Vocabulary (coq/Refine): [peqmod m a b] = "poly_mod (a - b) m is the zero polynomial"
+    (coefficientwise congruence); [canonical a] = no trailing zero; [in_range m a] = all
+    coefficients in [0, m). The bounded [B] statements quantify over the finite domain named
+    in the statement and are closed by [vm_compute]. *)
+From Coq Require Import ZArith List Lia Znumtheory.
 From RNT.Model Require Import Base Poly PolyModP FactorModP.
-From RNT.Refine Require Import PolyModStart.
+From RNT.Refine Require Import PolyModPArith PolyZmod MonicZ HenselProofs FactorSmall C08Lists PolyModStart.
+Import ListNotations.
 Open Scope Z_scope.
 
-(** [P] the explicit [panic!()] of [squarefree] on the zero polynomial. *)
+(** ** Arithmetic of prim.rs *)
+
+(** [P] [modpow] is x^e mod m (for e = 0 the result is 1, also when m = 1). *)
+Theorem modpow_spec : forall x e m r,
+  0 < m -> 0 <= e -> 0 <= x -> modpow x e m = Done r ->
+  r = (if e =? 0 then 1 else x ^ e mod m).
+Proof. exact modpow_spec. Qed.
+
+(** [P] any sign of x and of the modulus: the result is congruent to x^e. *)
+Theorem modpow_cong : forall x e m r,
+  m <> 0 -> 0 <= e -> modpow x e m = Done r -> r mod m = x ^ e mod m.
+Proof. exact modpow_cong. Qed.
+
+Theorem modpow_total : forall x e m, m <> 0 -> exists r, modpow x e m = Done r.
+Proof. exact modpow_total. Qed.
+
+Example modpow_nonvacuous : modpow 3 10 7 = Done 4 /\ modpow (-3) 5 7 = Done (-5).
+Proof. split; reflexivity. Qed.
+
+(** [P] [poly_mod]: canonical output with coefficients in [0, p). *)
+Theorem poly_mod_reduced : forall f p r,
+  0 < p -> poly_mod f p = Done r -> canonical r /\ in_range p r.
+Proof. exact poly_mod_reduced. Qed.
+
+Theorem poly_mod_nth : forall f p r i,
+  p <> 0 -> poly_mod f p = Done r -> nth i r 0 = (nth i f 0) mod p.
+Proof. exact poly_mod_nth. Qed.
+
+Example poly_mod_nonvacuous : poly_mod [1; -2; 7] 7 = Done [1; 5].
+Proof. reflexivity. Qed.
+
+(** [P] [poly_divrem_spec]: for p prime and a divisor whose leading coefficient is not divisible
+    by p: a = q b + r modulo p coefficientwise, deg r < deg b, q (and r, unless the early
+    return hands back a) reduced. *)
+Theorem poly_divrem_spec : forall p a b q r,
+  prime p -> b <> [] -> ~ (p | last b 0) ->
+  poly_divrem a b p = Done (q, r) ->
+  peqmod p a (padd opsZ (pmul opsZ q b) r) /\ (length r < length b)%nat /\
+  canonical q /\ in_range p q /\ (canonical a -> canonical r) /\
+  ((length b <= length a)%nat \/ a = [] -> in_range p r) /\
+  ((length a < length b)%nat -> q = [] /\ r = a).
+Proof. exact poly_divrem_list_spec. Qed.
+
+Theorem poly_divrem_total : forall p a b,
+  prime p -> ~ (p | last b 0) -> exists q r, poly_divrem a b p = Done (q, r).
+Proof. exact poly_divrem_list_total. Qed.
+
+Example poly_divrem_nonvacuous :
+  prime 3 /\ ~ (3 | last [1; 1; 2] 0) /\ poly_divrem [1; 2; 0; 1; 2] [1; 1; 2] 3 = Done ([1; 0; 1], [0; 1]).
+Proof.
+  split; [exact prime_3|]. split; [|reflexivity].
+  intros [k Hk]. cbn in Hk. lia.
+Qed.
+
+(** [P] [poly_gcd] of reduced polynomials is reduced and divides both modulo p. *)
+Theorem poly_gcd_spec : forall p a b g,
+  prime p -> canonical a -> in_range p a -> canonical b -> in_range p b ->
+  poly_gcd a b p = Done g ->
+  canonical g /\ in_range p g /\
+  (exists s, peqmod p a (pmul opsZ g s)) /\ (exists t, peqmod p b (pmul opsZ g t)).
+Proof. exact poly_gcd_list_spec. Qed.
+
+(** [P] fuel sufficiency: on reduced arguments (which is what every caller passes) the Euclidean
+    recursions return. *)
+Theorem poly_gcd_total : forall p a b,
+  prime p -> canonical a -> in_range p a -> canonical b -> in_range p b ->
+  exists g, poly_gcd a b p = Done g.
+Proof. exact poly_gcd_list_total. Qed.
+
+Theorem poly_ext_gcd_total : forall p a b,
+  prime p -> canonical a -> in_range p a -> canonical b -> in_range p b ->
+  exists g u v, poly_ext_gcd a b p = Done (g, u, v).
+Proof. exact poly_ext_gcd_list_total. Qed.
+
+(** [P] [poly_modpow] for e > 0: the result is x^e modulo (g, p) ([lpow x n] = x * ... * x), reduced. *)
+Theorem poly_modpow_spec : forall p x e g r,
+  prime p -> canonical g -> in_range p g -> 0 < e ->
+  poly_modpow x e g p = Done r ->
+  (exists k, peqmod p r (padd opsZ (lpow x (Z.to_nat e)) (pmul opsZ g k))) /\
+  canonical r /\ in_range p r.
+Proof. exact poly_modpow_list_spec. Qed.
+
+Example poly_modpow_nonvacuous :
+  prime 3 /\ canonical [2; 0; 0; 0; 1] /\ in_range 3 [2; 0; 0; 0; 1] /\
+  poly_modpow [0; 1] 27 [2; 0; 0; 0; 1] 3 = Done [0; 0; 0; 1].
+Proof. split; [exact prime_3|]. split; [reflexivity|]. split; [repeat constructor; lia|reflexivity]. Qed.
+
+(** ** The factoriser *)
+
+(** [P] [normalised]: for every prime p, every f, every pusize >= 0 (it is a usize), every stream of
+    random bytes and both build profiles: if [factorize_mod_p] returns, every returned g_i is monic
+    with coefficients in [0, p), canonical, of degree >= 1, and (dev profile) e_i >= 1. In the
+    release profile a wrapped [e *= pusize] could give 0 for an absurd pusize: no claim there. *)
+Theorem factorize_normalised : forall md p f pusize r out r',
+  prime p -> 0 <= pusize ->
+  factorize_mod_p md f p pusize r = Done (out, r') ->
+  Forall (fun ge => lmonic (fst ge) /\ canonical (fst ge) /\ in_range p (fst ge) /\
+                    (2 <= length (fst ge))%nat /\ (md = Checked -> 1 <= snd ge)) out.
+Proof. exact factorize_normalised_list. Qed.
+
+Example factorize_normalised_nonvacuous :
+  prime 3 /\ exists r', factorize_mod_p Checked [0; 0; 1; 0; 1] 3 3 (rng_of []) = Done ([([1; 0; 1], 1); ([0; 1], 2)], r').
+Proof. split; [exact prime_3|]. eexists. vm_compute. reflexivity. Qed.
+
+(** [P] equal-degree stage ([final_split], both the Cantor-Zassenhaus branch with every draw stream and
+    the p = 2 branch): if it returns, the product of the pieces is the input modulo p ([lprod] = product
+    of a list of polynomials) and every piece is reduced and non-zero. *)
+Theorem final_split_product : forall p poly d r out r',
+  prime p -> canonical poly -> in_range p poly -> poly <> [] ->
+  final_split poly p d r = Done (out, r') ->
+  peqmod p poly (lprod out) /\
+  Forall (fun g => canonical g /\ in_range p g /\ g <> []) out.
+Proof. exact final_split_product_list. Qed.
+
+(** [P] distinct-degree stage ([degree]): the product of the parts is the input up to a unit constant. *)
+Theorem degree_product : forall p poly out,
+  prime p -> canonical poly -> in_range p poly -> poly <> [] ->
+  degree poly p = Done out ->
+  exists c, 0 < c < p /\ peqmod p poly (pmul opsZ [c] (lprod (map fst out))).
+Proof. exact degree_product_list. Qed.
+
+Example stages_nonvacuous :
+  prime 3 /\ degree [2; 0; 0; 0; 1] 3 = Done [([2; 0; 1], 1); ([1; 0; 1], 2)] /\
+  final_split [1; 1; 1; 1; 1; 1; 1] 2 3 (rng_of []) = Done ([[1; 1; 0; 1]; [1; 0; 1; 1]], rng_of []).
+Proof. split; [exact prime_3|]. split; vm_compute; reflexivity. Qed.
+
+(** ** Bounded statements about the factoriser *)
+
+(** [B] every non-zero f over F_2 of degree <= 8 (n = its bitmask, [bits 9 n] its coefficient
+    list): the model returns without panic and without a random byte, and the answer passes
+    [check2] = all clauses of the property decided by an independent exhaustive search
+    (monic 0/1 factors, irreducible, multiplicities >= 1, pairwise distinct, product = f). *)
+Theorem factorize_mod_2_small : forall n : nat,
+  (1 <= n <= 511)%nat ->
+  exists res r, factorize_mod_p Checked (bits 9 (Z.of_nat n)) 2 2 (rng_of []) = Done (res, r) /\
+                check2 (bits 9 (Z.of_nat n)) res = true.
+Proof. exact factorize_mod_2_small. Qed.
+
+Example factorize_mod_2_example :
+  bits 9 (Z.of_nat 9) = [1; 0; 0; 1; 0; 0; 0; 0; 0] /\
+  exists r, factorize_mod_p Checked [1; 0; 0; 1] 2 2 (rng_of []) = Done ([([1; 1], 1); ([1; 1; 1], 1)], r).
+Proof. split; [reflexivity|]. eexists. vm_compute. reflexivity. Qed.
+
+(** [B] [pusize_irrelevant]: whenever p > deg f the machine-word copy of p is not used: for every
+    non-zero f over F_5 of degree <= 4 and over F_7 of degree <= 3 ([digits len p n] = base-p digits
+    of n) and every pusize in {0, 1, 2, 7, 2^64-1}, [squarefree] returns (no panic, in
+    particular no division by zero) and returns what pusize = p gives. *)
+Theorem pusize_irrelevant_small : forall p len (n : nat) pu,
+  (p = 5 /\ len = 5%nat /\ (1 <= n <= 3124)%nat) \/ (p = 7 /\ len = 4%nat /\ (1 <= n <= 2400)%nat) ->
+  In pu pusizes_tried ->
+  exists res, squarefree Checked (digits len p (Z.of_nat n)) p pu = Done res /\
+              same_outcome (squarefree Checked (digits len p (Z.of_nat n)) p pu)
+                           (squarefree Checked (digits len p (Z.of_nat n)) p p) = true.
+Proof. exact pusize_irrelevant_small. Qed.
+
+(** [B] the same for p = nextprime(2^64) (no machine-word copy exists), f with coefficients in
+    {0,1,2} of degree <= 2, pusize in {0, 1, 7}. *)
+Theorem pusize_irrelevant_big : forall (n : nat) pu,
+  (1 <= n <= 26)%nat -> In pu pusizes_big ->
+  exists res, squarefree Checked (digits 3 3 (Z.of_nat n)) pbig pu = Done res /\
+              same_outcome (squarefree Checked (digits 3 3 (Z.of_nat n)) pbig pu)
+                           (squarefree Checked (digits 3 3 (Z.of_nat n)) pbig 0) = true.
+Proof. exact pusize_irrelevant_big. Qed.
+
+(** [P] the explicit [panic!()] of [squarefree] on the zero polynomial (f = 0 mod p is outside the property). *)
 Theorem squarefree_zero_panics : forall md p pu, squarefree md [] p pu = Panic POther.
 Proof. exact squarefree_zero_panics. Qed.
